@@ -105,13 +105,13 @@ func c14entryPayload(r *rng, tag byte, src byte, serial int, n int) []byte {
 // c14judge compares a message the peer read with the datagrams that were handed to the entry point.
 // "" = it is one of them, whole.
 func c14judge(msg []byte, sent [][]byte) (verdict string, of int) {
-	for i, d := range sent {
-		if bytes.Equal(d, msg) {
+	for i := len(sent) - 1; i >= 0; i-- { // the latest first: tiny datagrams may repeat
+		if bytes.Equal(sent[i], msg) {
 			return "", i
 		}
 	}
-	for i, d := range sent {
-		if len(msg) < len(d) && len(msg) > 0 && bytes.Equal(d[:len(msg)], msg) {
+	for i := len(sent) - 1; i >= 0; i-- {
+		if d := sent[i]; len(msg) < len(d) && len(msg) > 0 && bytes.Equal(d[:len(msg)], msg) {
 			return "truncated", i
 		}
 	}
@@ -331,7 +331,8 @@ func c14udpEntry(c *ctx, r *rng) {
 	var sent [][]byte             // every datagram handed to the socket so far
 	var sentSrc []int             // which application socket
 	streamSrc := map[uint32]int{} // stream id -> application socket whose datagrams arrive on it
-	delivered := map[int]int{}
+	delivered := map[string]int{} // by content: how often the peer read it
+	sends := map[string]int{}     // by content: how often it was handed to the socket (retries included)
 	truncSeen := false
 	for serial, n := range sizes {
 		if n > 65507 {
@@ -349,6 +350,7 @@ func c14udpEntry(c *ctx, r *rng) {
 				o.N(fmt.Sprintf("C14 udp entry: the socket refused a %d-byte datagram: %v", n, err))
 				break
 			}
+			sends[string(d)]++
 			recs = newRecs(4 * time.Second)
 		}
 		if recs == nil {
@@ -357,13 +359,14 @@ func c14udpEntry(c *ctx, r *rng) {
 			o.stat("udp_entry_no_arrival", 1)
 			continue
 		}
-		var frames []int
 		closed := false
 		type c14arr struct {
 			sid uint32
 			m   []byte
 		}
 		var arrived []c14arr
+		var frames []int // payload lengths of the data records that carry (a part of) THIS datagram
+		foreignRecords := 0
 		for _, rc := range recs {
 			sid, closing, pl, msgs, derr := peer.feed(rc.data)
 			if derr != nil {
@@ -374,15 +377,23 @@ func c14udpEntry(c *ctx, r *rng) {
 				closed = true
 				continue
 			}
-			frames = append(frames, pl)
+			mine := false
 			for _, m := range msgs {
 				arrived = append(arrived, c14arr{sid, m})
+				if _, of := c14judge(m, sent); of == serial {
+					mine = true
+				}
+			}
+			if mine {
+				frames = append(frames, pl)
+			} else {
+				foreignRecords++ // a late copy of an earlier (retried) datagram: judged below, not part of this row
 			}
 		}
 		// model correspondence: what RouteUDP handed to the wire for this datagram (first arrival)
-		if tries == 1 {
+		if tries == 1 && foreignRecords == 0 {
 			switch {
-			case len(frames) == 1:
+			case len(frames) == 1 && !closed:
 				o.T(fmt.Sprintf("dg.entry n=%d", n), fmt.Sprintf("frames=[%d] err=ok", frames[0]))
 			case len(frames) == 0 && closed:
 				o.T(fmt.Sprintf("dg.entry n=%d", n), "frames=[] err=short-buffer")
@@ -400,10 +411,13 @@ func c14udpEntry(c *ctx, r *rng) {
 					o.V("C14 oversize datagram not refused at the sender", map[string]any{"part": "udp-entry", "len": len(sent[of]), "max": max})
 					return
 				}
-				delivered[of]++
-				if delivered[of] > tries {
-					o.V("C14 udp-entry: datagram delivered more often than it was sent", map[string]any{"datagram_len": len(sent[of]), "times": delivered[of], "sends": tries})
+				delivered[string(m)]++
+				if delivered[string(m)] > sends[string(m)] {
+					o.V("C14 udp-entry: datagram delivered more often than it was sent", map[string]any{"datagram_len": len(m), "times": delivered[string(m)], "sends": sends[string(m)]})
 					return
+				}
+				if len(m) < 4 {
+					break // too short to carry its source tag
 				}
 				if prev, ok := streamSrc[sid]; ok && prev != sentSrc[of] {
 					o.V("C14 udp-entry: datagrams of two local sources arrived on one stream", map[string]any{"stream": sid, "sources": []int{prev, sentSrc[of]}})
